@@ -8,7 +8,7 @@ The program given to the spec is the generator's abstract program (generated pro
 from .. import campaign as C
 from ..driver import analysis_check, standard_items
 
-CONFIG = dict(want=["parsed", "moments"], builders=[C.b_source, C.b_moments])
+CONFIG = dict(want=["parsed", "moments", "recs"], builders=[C.b_source, C.b_moments])
 
 
 def main(tier, seed):
@@ -42,7 +42,7 @@ def main(tier, seed):
                                            "spec_value": str(it["spec_values"][g][n])})
         return dict(ps_cov, progspace_values_compared=compared, progspace_mismatches=mismatches)
     return analysis_check("C01", tier, seed, items=items, N=6 if quick else 9,
-                          timeout=100 if quick else 300, post=post, **CONFIG)
+                          timeout=100 if quick else 300, post=post, N_ext=40, **CONFIG)
 
 
 def replay(path):
